@@ -4283,9 +4283,33 @@ impl Handler {
         };
         let effective_auth = refreshed_identity.as_ref().or(auth);
 
-        // Authorization check: if auth is provided, validate the statement
+        // The statements to authorize: the program as a single statement (when it
+        // parses as one) and every logical line of it, exactly as query_program
+        // will execute them. Checking only the whole text let a multi-statement
+        // program through unchecked, because it does not parse as one statement.
+        let mut statements_to_check: Vec<statement::Statement> = Vec::new();
+        if let Ok(stmt) = statement::parse_statement(trimmed) {
+            statements_to_check.push(stmt);
+        }
+        {
+            let logical = join_continuation_lines(&strip_comments(&program));
+            let lines: Vec<&str> = logical
+                .lines()
+                .map(str::trim)
+                .filter(|l| !l.is_empty())
+                .collect();
+            if lines.len() > 1 || lines.first().is_some_and(|l| *l != trimmed) {
+                for line in lines {
+                    if let Ok(stmt) = statement::parse_statement(line) {
+                        statements_to_check.push(stmt);
+                    }
+                }
+            }
+        }
+
+        // Authorization check: if auth is provided, validate every statement
         if let Some(identity) = effective_auth {
-            if let Ok(ref stmt) = statement::parse_statement(trimmed) {
+            for stmt in &statements_to_check {
                 crate::auth::authorize_statement(&identity.role, stmt)?;
             }
         }
@@ -4309,7 +4333,7 @@ impl Handler {
                 ));
             }
         }
-        if let Ok(ref stmt) = statement::parse_statement(trimmed) {
+        for stmt in &statements_to_check {
             match stmt {
                 statement::Statement::Meta(
                     statement::MetaCommand::KgUse(name)
@@ -4325,10 +4349,13 @@ impl Handler {
             }
         }
 
-        // Per-KG authorization: check if user has access to the target KG.
+        // Per-KG authorization: check if user has access to the target KG of
+        // every statement. A `.kg use` inside the program changes the KG the
+        // following statements act on.
         if let Some(identity) = effective_auth {
             if identity.role != crate::auth::Role::Admin {
-                if let Ok(ref stmt) = statement::parse_statement(trimmed) {
+                let mut effective_kg: Option<String> = current_kg.map(str::to_string);
+                for stmt in &statements_to_check {
                     // Determine which KG the operation targets
                     let target_kg = match stmt {
                         statement::Statement::Meta(
@@ -4352,7 +4379,7 @@ impl Handler {
                             | statement::MetaCommand::Status,
                         ) => None,
                         // All other statements operate on the current KG
-                        _ => current_kg,
+                        _ => effective_kg.as_deref(),
                     };
 
                     if let Some(kg) = target_kg {
@@ -4363,6 +4390,10 @@ impl Handler {
                         } else {
                             return Err("Access denied".to_string());
                         }
+                    }
+
+                    if let statement::Statement::Meta(statement::MetaCommand::KgUse(name)) = stmt {
+                        effective_kg = Some(name.clone());
                     }
                 }
             }
